@@ -1885,7 +1885,7 @@ fn c15(args: &Args) -> ! {
     let mut rep = Report::new(
         "schemamc",
         "C15",
-        "every reference function f: entries -> entries+none ((n+1)^n graphs) x every insertion order (n!) x {sorted,unsorted} x {reference column alone, next to another column} x {unsigned word, unsigned word beside plain equal constants, signed word = target position, signed word = target - own position, unsigned word held by the second variant of the schema}, n in 1..4 (quick) / 1..5 (thorough), plus references between two, three, four and five stores of one pack (chains of stores each sorted on its references into the next) (every target function on small stores, stores of 257/300 entries reversed by their sort, every order of adding the stores); plus structured graphs (successor chain, everyone->last, reversal, self) at n in {32,300,1000,20000} crossing the 1-byte position boundary and rayon's sequential cut-offs; non-trivial = at least one reference and (unsorted or the sort moves an entry)",
+        "every reference function f: entries -> entries+none ((n+1)^n graphs) x every insertion order (n!) x {sorted,unsorted} x {reference column alone, next to another column} x {unsigned word, unsigned word beside plain equal constants, signed word = target position, signed word = target - own position, unsigned word held by the second variant of the schema}, n in 1..4 (quick) / 1..5 (thorough), plus references between two, three, four and five stores of one pack (chains of stores each sorted on its references into the next) (every target function on small stores, stores of 257/300 entries reversed by their sort, every order of adding the stores); plus structured graphs (successor chain, everyone->last, reversal, self) at n in {32,300,1000,20000} and a reduced set at 66000 crossing the 1-byte and 2-byte position boundaries and rayon's sequential cut-offs; non-trivial = at least one reference and (unsorted or the sort moves an entry)",
     );
     if let Some(p) = &args.replay {
         let j: J = serde_json::from_str(&std::fs::read_to_string(p).expect("replay file")).unwrap();
@@ -1943,13 +1943,31 @@ fn c15(args: &Args) -> ! {
                 (0..n).map(|k| Some(k % m)).collect(),           // few targets, inserted first
                 (0..n).map(|k| Some(n - m + k % m)).collect(),   // few targets, inserted last
             ];
-            for keys in &arrangements {
-                for f in &graphs {
+            // above 30000 entries (positions that need a third byte at 65536+) a reduced set:
+            // the reversal arrangement, three graphs, sorted, forward insertion, modes 0 and 2
+            let big = n > 30_000;
+            for (ai, keys) in arrangements.iter().enumerate() {
+                if big && ai != 1 {
+                    continue;
+                }
+                for (gi, f) in graphs.iter().enumerate() {
+                    if big && gi > 2 {
+                        continue;
+                    }
                     for sorted in [true, false] {
+                        if big && !sorted {
+                            continue;
+                        }
                         for rev in [false, true] {
+                            if big && rev {
+                                continue;
+                            }
                             let mut order: Vec<usize> = (0..n).collect();
                             if rev { order.reverse(); }
                             for mode in 0..5u8 {
+                                if big && mode != 0 && mode != 2 {
+                                    continue;
+                                }
                                 descs.push(RefCase { n, f: f.clone(), order: order.clone(), sorted, extra_col: n % 2 == 0, keys: keys.clone(), mode });
                             }
                         }
